@@ -25,6 +25,16 @@ REG = {
          'torch ops act independently per line (modelled as List.map; exercised with batches of different content).',
     technique='Lean 4 proof (pipeline = collapse, induction over frames) + differential correspondence',
     ref='§5-C04'),
+ 'C05': dict(
+    text='Lean 4 theorems over a model of force_alignment.py (2n+1-state CTC topology, Viterbi with the code\'s scan order and '
+         'strict updates, first-minimum argmin, backtracking): the returned path has one symbol per frame, collapses exactly to '
+         'the labels and is minimum-cost among ALL frame paths that do; failure iff no finite-cost alignment exists, and for '
+         'finite matrices iff T < |labels| + #adjacent repeats; character positions strictly increasing and most confident '
+         'within their block. Exact correspondence (integer/inf costs, ties) + brute-force oracle on the real code.',
+    note='Trusted: Lean kernel + 3 standard axioms; NumPy float arithmetic on small integers/inf is exact; numba-compiled '
+         'compute_update behaves as its Python body; +inf alignments count as non-existent.',
+    technique='Lean 4 proof (Viterbi DP invariant + CTC topology bijection) + differential correspondence',
+    ref='§5-C05'),
  'C15': dict(
     text='Lean 4 theorems over a model of merge_transcriptions_and_logits whose two slice expressions are REGENERATED from the '
          'Python source on every run (translator/merge.py -> Generated/Merge.lean): length law, one logits row per character, '
